@@ -83,6 +83,10 @@ func clampInt(kind string, v int64) int64 {
 func genFloatValue() *rapid.Generator[*spec.Value] {
 	return rapid.Custom(func(rt *rapid.T) *spec.Value {
 		f := rapid.SampledFrom(interestingFloats).Draw(rt, "fv")
+		if rapid.IntRange(0, 9).Draw(rt, "specialFloat") == 0 {
+			// IEEE-754 specials: every ordered comparison with NaN is false, != is true
+			f = rapid.SampledFrom([]float64{math.NaN(), math.Inf(1), math.Inf(-1), negZero()}).Draw(rt, "special")
+		}
 		if rapid.IntRange(0, 3).Draw(rt, "f32") == 0 {
 			return spec.Float32(float32(f))
 		}
@@ -333,6 +337,10 @@ func (g *exprGen) leaf(rt *rapid.T, k refint.Kind) *tw.Expr {
 			}
 			return tw.Float(f, rapid.SampledFrom([]string{"0", "00"}).Draw(rt, "padF")+text+rapid.SampledFrom([]string{"", "0", "00"}).Draw(rt, "padFT"))
 		}
+		if rapid.IntRange(0, 11).Draw(rt, "computedSpecial") == 0 {
+			// NaN and the infinities cannot be written as literals, only computed
+			return rapid.SampledFrom([]*tw.Expr{tw.Bin("/", floatLit(0), floatLit(0)), tw.Bin("/", floatLit(1), floatLit(0)), tw.Bin("-", tw.Bin("/", floatLit(1), floatLit(0)), tw.Bin("/", floatLit(1), floatLit(0)))}).Draw(rt, "special")
+		}
 		return floatLit(rapid.SampledFrom(interestingFloats).Draw(rt, "flit"))
 	case refint.KStr:
 		return strLit(rt, rapid.SampledFrom(plainStrings).Draw(rt, "slit"))
@@ -533,7 +541,14 @@ func genSpecValue(depth int, unsupported bool) *rapid.Generator[*spec.Value] {
 			}
 			return spec.Struct(names, vals)
 		default:
-			switch rapid.IntRange(0, 2).Draw(rt, "fixed") {
+			switch rapid.IntRange(0, 5).Draw(rt, "fixed") {
+			case 3:
+				inner := rapid.SampledFrom([]*spec.Value{spec.NilPtr(spec.FixedType("Inner")), spec.Ptr(&spec.Value{T: spec.FixedType("Inner"), Items: []*spec.Value{spec.String("t"), spec.IntOf(spec.TInt, 1)}})}).Draw(rt, "embPtr")
+				return &spec.Value{T: spec.FixedType("EmbedsPtr"), Items: []*spec.Value{inner, spec.String("lab")}}
+			case 4:
+				return &spec.Value{T: spec.FixedType("PersonA"), Items: []*spec.Value{spec.String("Ann"), spec.IntOf(spec.TInt, 31)}}
+			case 5:
+				return &spec.Value{T: spec.FixedType("PersonB"), Items: []*spec.Value{spec.IntOf(spec.TInt, 44), spec.String("Bob"), spec.String("bob@x")}}
 			case 0:
 				return &spec.Value{T: spec.FixedType("WithHidden"), Items: []*spec.Value{spec.String("nm"), spec.IntOf(spec.TInt, 41)}}
 			case 1:
